@@ -50,7 +50,7 @@ def plan(tier, seed):
                             {"mode": "lab", "costs": [core[0]]})      # the two combs
         # 4-leaf chains on one species, every tuple of subsequences of abc (nested leading / trailing losses)
         out += L.split_plan("labelled:O4chainx1x3s", [(sh, None) for sh in spaces.chain_shapes(4)],
-                            [s_ for s_ in spaces.ordered_syntenies(3) if s_ == tuple(sorted(s_))], 60, {"mode": "lab", "costs": [core[0]]})
+                            spaces.subsequence_syntenies(3), 60, {"mode": "lab", "costs": [core[0]]})
         for osh, ssh in spaces.shape_pairs(4, 3):
             out.append({"slice": "single-family:P4x3", "mode": "single", "osh": osh, "ssh": ssh, "costs": core[:4] + [core[7]] + cheap_hgt + uneven})
         # two cherries on 4 species leaves: the optimum may host the root strictly below the LCA species of both children
